@@ -40,13 +40,16 @@ package liveness
 // LRU is created with the configured capacity and that the callback's lock is the cache's lock.
 //@ func newLRUCache(exp time.Duration, size int) *lruCache
 //@   ensures @C18: result != nil ==> result.lru != nil && lruSizeOf(result.lru) == ite(size <= 0, 100000, size) && result.lruSize == lruSizeOf(result.lru) && result.expiration == exp
-//@   ensures @C18: size > 0 ==> result != nil
+//@   ensures @C18 @C19: result != nil
 //@   assigns nothing
 
 //@ func (blt *CachedLivenessTester) Init(conf *Config) error
 //@   requires blt != nil && conf != nil
 //@   ensures @C18: result == nil && conf.CacheDuration != "" && conf.CacheCapacity > 0 ==> typeis(blt.ipCacheLive, *lruCache) && unboxptr(blt.ipCacheLive, *lruCache).lruSize == conf.CacheCapacity
 //@   ensures @C18: result == nil && conf.CacheDurationNonLive != "" && conf.CacheCapacityNonLive > 0 ==> typeis(blt.ipCacheNonLive, *lruCache) && unboxptr(blt.ipCacheNonLive, *lruCache).lruSize == conf.CacheCapacityNonLive
+// C19: for every accepted configuration each cache is absent or a usable object (never a typed nil pointer, which the
+// periodic statistics and clean-up would dereference)
+//@   ensures @C19: result == nil ==> (blt.ipCacheLive == nil || unboxptr(blt.ipCacheLive) != nil) && (blt.ipCacheNonLive == nil || unboxptr(blt.ipCacheNonLive) != nil)
 
 // interface contracts of the cache as the tester uses it
 //@ func (c cache) Lookup(key string) bool
